@@ -28,7 +28,9 @@ are three sufficient conditions under which threads cannot disturb each other th
       *operations*, never through a value it already holds;
   H9a where entries can be evicted, every operation that needs its key present tolerates a concurrent eviction (try / lock);
   H9b populate-once state is published atomically (one write statement or under a lock);
-  H12 a temporary patch of a shared object (save / set / restore) runs under a lock.
+  H12 a temporary patch of a shared object (save / set / restore) runs under a lock;
+  H13 no function sets a module-level name AROUND a computation that reads it (save / set / compute / restore, or a context manager
+      setting it for its with-body) without a lock: such a name is a dynamically scoped parameter shared by all threads.
 A failed condition is `unknown` until the native replayer exhibits a schedule: two threads under a controlled scheduler
 (sys.settrace), one preemption at every line of the functions that touch the state (H9, H10), or two context switches at every
 pair of lines of the patching context manager (H12).  H9a and H9b were repaired in /repo (fix: commits); H12 still fails on
@@ -538,8 +540,13 @@ def policy(repo, tier):
       f"{cm_key[1] if cm_key else '?'}: {as_with}/{len(sites_cm)} uses are with-items", PDF, definite=False)
 
     # ---- foreign objects (other libraries, the interpreter): who mutates them, on whose behalf (root = where the object is named)
+    # process entry points (modules with an `if __name__ == "__main__"` guard): what a command-line front end does to ITS process
+    # before / after calling the library is not the library's extraction code
+    script_mods = {rel for rel, m in mods.items() if any(isinstance(n, ast.If) and "__name__" in ast.unparse(n.test) and "__main__" in ast.unparse(n.test) for n in m.tree.body)}
     xm = []
     for e in an.xmuts():
+        if e["fn"][0] in script_mods and not O.callers(an).get(e["fn"]):
+            continue
         fn = an.fns[e["fn"]]
         recv = O.receiver_of(e["node"], lambda t: ("X:" + e["state"]) in an.L(fn, t, e["node"]))
         roots = O.origin_roots(an, fn, recv) if recv is not None else [fn]
@@ -794,6 +801,32 @@ def policy(repo, tier):
                            "; ".join(r[2] for r in rebinders[:4]) or "no function that extraction code reaches rebinds a module-level name", "package", definite=False)
     rb["replay_hint"] = {"context_managers": [[rel, q] for (rel, q, _w) in rebinders if O.is_context_manager(an.fns[(rel, q)])]}
     obls.append(rb)
+    # H13 (schedules): a module-level name that a function rebinds AROUND a computation reading it (save / set / compute / restore, or a
+    # context manager setting it for its with-body) is a dynamically scoped parameter shared by all threads: needs a lock or a thread-local
+    dyn, dyn_fns = [], set()
+    for (rel, q), afn in sorted(an.fns.items()):
+        for nm in sorted(afn.globals_decl):
+            sites_nm = [n for n in afn.own if isinstance(n, ast.Name) and n.id == nm and isinstance(n.ctx, (ast.Store, ast.Del))]
+            if not sites_nm or lazy_name(an, afn, nm):
+                continue
+            readers = {k_ for k_, g in an.fns.items() if k_[0] == rel and k_ != (rel, q) and nm not in g.locals
+                       and any(isinstance(n, ast.Name) and n.id == nm and isinstance(n.ctx, ast.Load) for n in g.own)}
+            inside = readers & O.callee_closure(an, (rel, q))
+            if O.is_context_manager(afn):
+                inside = readers                                  # the with-body runs while the name is set
+            if not inside:
+                continue
+            if all(O.site_locked(an, afn, n) for n in sites_nm):
+                continue
+            dyn.append(f"{base(rel)}::{q} sets global {nm} while {sorted(k_[1] for k_ in inside)[:3]} read(s) it")
+            dyn_fns |= {q.split('.')[-1]} | {k_[1].split('.')[-1] for k_ in inside}
+            dyn_rel = rel
+    dy = ground_obligation("C15/package/schedule#no-module-level-name-is-set-around-a-computation-that-reads-it", not dyn,
+                           "; ".join(dyn[:4]) + (" -- two overlapping calls with different settings see each other's value" if dyn else
+                                                 "no function rebinds a module-level name that code running inside it reads (or it does so under a lock)"),
+                           "package", definite=False)
+    dy["replay_hint"] = {"rel": dyn_rel if dyn else None, "functions": sorted(dyn_fns), "two_switch": True}
+    obls.append(dy)
     # H5c: a mutable default argument that the function mutates is module-level state in disguise
     md = []
     for (rel, q), afn in sorted(an.fns.items()):
@@ -809,6 +842,8 @@ def policy(repo, tier):
     sites_s = []
     for (rel, q), afn in sorted(an.fns.items()):
         imp = an.imports[rel]
+        if rel in script_mods and not O.callers(an).get((rel, q)):
+            continue
 
         def origin(e, afn=afn, imp=imp):
             """dotted origin of an attribute chain whose root is an imported name ('' otherwise)"""
